@@ -115,4 +115,45 @@ func (r *Runner) SideReorg(g *rng.R) (confirmed int, contested, done bool) {
 	return len(taken), contested, r.Tip == n2
 }
 
+// EmptyFork reorgs to n empty blocks built on the block `back` below the tip (n > back).
+func (r *Runner) EmptyFork(back, n int) bool {
+	fork := r.Tip
+	for i := 0; i < back && fork.Parent != nil; i++ {
+		fork = fork.Parent
+	}
+	if !fork.ChainValid() || !r.Applied[fork] {
+		return false
+	}
+	var ids []int
+	at := fork
+	for i := 0; i < n; i++ {
+		x := r.W.T.AddBlock(AssembleBlock(at, nil, nil), "")
+		if x == nil || !x.ChainValid() {
+			return false
+		}
+		ids = append(ids, x.Idx)
+		at = x
+	}
+	r.Chain(mgrsim.Op{Kind: "add", Nodes: ids})
+	return r.Tip == at
+}
+
+// ConfirmOld applies a block on the tip that confirms only the k-th v1 transaction accepted earlier.
+func (r *Runner) ConfirmOld(k int) bool {
+	if k >= len(r.Old1) {
+		return false
+	}
+	tip := r.Tip
+	if r.W.NewValidator(tip).V1(r.Old1[k].V1) != nil {
+		return false
+	}
+	x := r.W.T.AddBlock(AssembleBlock(tip, []types.Transaction{r.Old1[k].V1}, nil), "")
+	if x == nil || !x.ChainValid() {
+		return false
+	}
+	r.minedFromPool[x] = true
+	r.Chain(mgrsim.Op{Kind: "add", Nodes: []int{x.Idx}})
+	return r.Tip == x
+}
+
 var _ = chaingen.TxKinds
